@@ -217,11 +217,11 @@ Definition ten_ok (x f : Q) : bool :=
   if is_int x then near (q10 k) f
   else qle (q10 k * (1 - tol)) f && qle f (q10 (k + 1) * (1 + tol)).
 
-(* exact log10 of a power of ten 10^k, |k| <= 40 *)
+(* log10 of a binary64 neighbour (within tol) of a power of ten 10^k, |k| <= 40 *)
 Fixpoint find_log (q : Q) (k : Z) (n : nat) : option Z :=
   match n with
   | O => None
-  | S n' => if qeq (q10 k) q then Some k else find_log q (k + 1) n'
+  | S n' => if near (q10 k) q then Some k else find_log q (k + 1) n'
   end.
 Definition exact_log10 (q : Q) : option Z := find_log q (-40) 81.
 
@@ -371,12 +371,13 @@ Definition first_bad_probe (c : c10_case) : Z :=
       end
   | None => (-1)%Z
   end.
-Definition violation_details (cs : list c10_case) : list (Z * (list nat * Z)) :=
-  (fix go (l : list c10_case) (i : Z) :=
+(* flat encoding, per violating case: index, first offending probe, number of clauses, the clauses *)
+Definition violation_details (cs : list c10_case) : list Z :=
+  (fix go (l : list c10_case) (i : Z) : list Z :=
      match l with
      | [] => []
      | c :: r => match case_clauses c with
                  | [] => go r (i + 1)%Z
-                 | cl => (i, (cl, first_bad_probe c)) :: go r (i + 1)%Z
+                 | cl => (i :: first_bad_probe c :: Z.of_nat (List.length cl) :: map Z.of_nat cl) ++ go r (i + 1)%Z
                  end
      end) cs 0%Z.
